@@ -222,6 +222,12 @@ class TryGen:
         r = self.r
         ret = r.choice([OPT_I, OPT_I, RES_I, RES_I, OPT_S, RES_V, OPT_V])
         params = [("a", INT), ("b", INT)]
+        # void-typed parameters occupy no stack slot: the early exit of `?` must still find the
+        # caller's slot
+        if r.chance(45):
+            for _ in range(r.range(1, 2)):
+                params.insert(r.range(0, len(params)), ("u%d" % len(params), VOID))
+            self.features.add("void-parameter")
         stmts, ints = self.body_stmts(ret, ["a", "b"], r.range(2, 4), 3)
         name = "f%d" % idx
         t = self.fresh("tr")
@@ -250,7 +256,8 @@ class TryGen:
         for f in mine:
             for (a, b) in inputs[:r.range(3, 6)]:
                 main.append(("print", lit("[%s %d %d]" % (f["name"], a, b)), False))
-                main.append(("print", ("call", f["ret"], f["name"], [lit(a), lit(b)]), True))
+                vals = {"a": lit(a), "b": lit(b)}
+                main.append(("print", ("call", f["ret"], f["name"], [vals.get(pn, lit(None)) for pn, _pt in f["params"]]), True))
         # top-level `!` (stops the program with a panic when it fails)
         if r.chance(60):
             g = ["g"]
